@@ -1,6 +1,8 @@
 package main
 
 import (
+	"github.com/pip-services3-gox/pip-services3-expressions-gox/tokenizers"
+	calctok "github.com/pip-services3-gox/pip-services3-expressions-gox/calculator/tokenizers"
 	"strings"
 	"fmt"
 	"sort"
@@ -37,14 +39,22 @@ func init() {
 }
 
 func execC16(seg []Ev) []Ev {
-	var st *generic.GenericSymbolState
+	var st tokenizers.ISymbolState
 	var sc *sio.StringScanner
 	out := make([]Ev, 0, len(seg))
 	for _, in := range seg {
 		e := Ev{"op": in["op"]}
 		switch toStr(in["op"]) {
 		case "new":
-			st = generic.NewGenericSymbolState()
+			if k, ok := in["kind"]; ok && toStr(k) == "expression" {
+				// the expression tokenizer's symbol state: the same machinery with six symbols registered at construction
+				st = calctok.NewExpressionSymbolState()
+				e["kind"] = "expression"
+				e["preset"] = []any{[]any{cps("<>"), tokenizers.Symbol}, []any{cps("<="), tokenizers.Symbol}, []any{cps(">="), tokenizers.Symbol},
+					[]any{cps("!="), tokenizers.Symbol}, []any{cps(">>"), tokenizers.Symbol}, []any{cps("<<"), tokenizers.Symbol}}
+			} else {
+				st = generic.NewGenericSymbolState()
+			}
 			sc = sio.NewStringScanner("")
 		case "add":
 			s := toRunes(in["sym"])
@@ -308,6 +318,17 @@ func genC16(g *Gen) {
 					reg{[]rune(parent + "a=x"), 203}, reg{[]rune(parent + string(firsts[nsib/2]) + "!!"), 204}, probe, []rune(parent+string(firsts[nsib/2])+"!!"+parent+string(firsts[nsib/2])+"!"))
 				emit("many siblings under one node", steps)
 			}
+		}
+		// symbols that contain U+0000; token types far outside the built-in range
+		emit("unusual symbol characters and type codes", []any{reg{[]rune("<\x00>"), 0x10001}, reg{[]rune("\x00\x00"), 70000}, reg{[]rune("a\x00"), -5}, []rune("<\x00><\x00x\x00\x00\x00a\x00a"),
+			reg{[]rune("<\x00"), 1 << 40}, []rune("<\x00><\x00x<"), reg{[]rune("=="), 32768}, reg{[]rune("="), 65536}, []rune("===")})
+		// instances of the expression symbol state: what one registers the next one does not have
+		for rep := 0; rep < 3; rep++ {
+			seg := []Ev{{"op": "new", "kind": "expression"}, {"op": "scan", "input": cps("=><=")}, {"op": "next"}, {"op": "next"}, {"op": "next"},
+				{"op": "add", "sym": cps("=>"), "type": 300}, {"op": "add", "sym": cps("<=>"), "type": 301}, {"op": "scan", "input": cps("=><=>")}, {"op": "next"}, {"op": "next"},
+				{"op": "new", "kind": "expression"}, {"op": "scan", "input": cps("=><=>!=")}, {"op": "next"}, {"op": "next"}, {"op": "next"}, {"op": "next"}, {"op": "next"},
+				{"op": "new"}, {"op": "scan", "input": cps("=><=")}, {"op": "next"}, {"op": "next"}, {"op": "next"}, {"op": "next"}}
+			g.Run("instances of the expression symbol state", seg)
 		}
 		for _, sym := range []string{"<", "<=", "<=>", "ab", "é="} {
 			probe := []rune(sym + " " + sym + "x<=>=" + sym)
